@@ -138,14 +138,37 @@ func (e *Explorer) explore(prefix []int, used int) bool {
 	if x.PrunedAt >= 0 {
 		// continuation already covered; branch only above the cut
 	} else if f := e.sc.Check(x); f != nil {
-		// confirm determinism: the same choices must fail the same way 5 times
-		for i := 0; i < 5; i++ {
-			y := e.runOnce(x.Choices, true)
+		// confirm: the same choices must fail the same way 5 times.  If they do
+		// not, the code under test has a source of nondeterminism the scheduler
+		// does not own (typically map iteration order); the schedule is then
+		// re-run 20 times and the violation stands if it recurs at all - every
+		// one of these runs is a real execution of the real code - while a
+		// failure that never recurs is a machinery failure, not a verdict.
+		same := true
+		for i := 0; i < 5 && same; i++ {
+			y := e.runOnceTolerant(x.Choices)
 			g := e.sc.Check(y)
 			if g == nil || g.Kind != f.Kind || y.traceSum != x.traceSum {
-				panic(MachineryFailure(fmt.Sprintf("violation %q did not reproduce on replay %d of the same schedule (nondeterminism not captured)", f.Kind, i+1)))
+				same = false
+			} else {
+				f.Trace = y.Trace
 			}
-			f.Trace = y.Trace
+		}
+		if !same {
+			again := 0
+			for i := 0; i < 20; i++ {
+				y := e.runOnceTolerant(x.Choices)
+				if g := e.sc.Check(y); g != nil {
+					again++
+					if f.Trace == nil {
+						f.Trace = y.Trace
+					}
+				}
+			}
+			if again == 0 {
+				panic(MachineryFailure(fmt.Sprintf("violation %q did not reproduce in 20 re-runs of the same schedule (nondeterminism not captured)", f.Kind)))
+			}
+			f.Detail += fmt.Sprintf(" [not deterministic under a fixed schedule: %d of 20 re-runs of the same choices violated the property again - the code has a source of nondeterminism outside the scheduler, e.g. map iteration order]", again)
 		}
 		f.Choices = append([]int{}, x.Choices...)
 		e.fail = f
@@ -271,6 +294,17 @@ func Explore(sc *Scenario) (*Stats, *Failure) {
 		st.Capped = fullCut
 	}
 	return st, nil
+}
+
+// runOnceTolerant replays choices with tracing and tolerates divergence (an
+// out-of-range choice falls back to the default alternative).
+func (e *Explorer) runOnceTolerant(choices []int) *X {
+	h := e.sc.Horizon
+	if h == 0 {
+		h = 20000
+	}
+	s := newSched(choices, h, true)
+	return s.run(func() { e.sc.Body(s.x) })
 }
 
 // ReplayOnce re-executes one recorded schedule (no exploration) with tracing.
